@@ -193,7 +193,8 @@ theorem stepRel_RStart (now : Int) :
     obtain ⟨h0, hs⟩ := fresh_of_can hi hc
     obtain ⟨_, _, h3, h4, _, _⟩ := hi
     refine ⟨?_, ?_, h3, h4, ?_, ?_⟩ <;>
-      cases hf : d.fixed <;> simp [trigSelf, noteTriggered, markTriggered, h0, hs, hf] <;> omega
+      cases hf : d.fixed <;> cases hq : d.quiet <;>
+      simp [trigSelf, noteTriggered, markTriggered, h0, hs, hf, hq] <;> omega
   startT := by
     intro d hi _ hc _
     have hw := canBeTriggered_window hc
@@ -204,8 +205,8 @@ theorem stepRel_RStart (now : Int) :
     obtain ⟨h0, hs⟩ := fresh_of_can hi hc
     have hw := canBeTriggered_window hc
     obtain ⟨_, _, h3, h4, _, _⟩ := hi
-    refine ⟨?_, ?_, h3, h4, ?_, ?_⟩ <;>
-      simp [startSelf, trigSelf, noteTriggered, markTriggered, noteStarted, h0, hs, hf] <;> omega
+    refine ⟨?_, ?_, h3, h4, ?_, ?_⟩ <;> cases hq : d.quiet <;>
+      simp [startSelf, trigSelf, noteTriggered, markTriggered, noteStarted, h0, hs, hf, hq] <;> omega
   remove := by intro d _ _ h; exact h
   setup := by intro d _ _ h; exact h
   addTrig := by
@@ -327,5 +328,25 @@ theorem cascade_children (n : Nat) (now t : Int) (ht : t ≠ 0) (id : Nat) (dts 
     (allc_trivial _)
   obtain ⟨x3, hx3, r3⟩ := h2.1 x2 hx2
   exact ⟨x3, hx3, done_succ ht r3 hd2⟩
+
+/-! ### Pause mirror -/
+
+theorem rtrig_setq (now : Int) (b : Bool) (d : Dt) : RTrig now d (setQuiet b d) := by
+  have h := setQuiet_eq b d
+  exact rtrig_of_eq h.1 h.2.2.2.1 h.2.2.2.2.1 h.2.2.2.2.2.1 h.2.2.2.2.2.2.1 h.2.2.1
+
+theorem rend_setq (b : Bool) (d : Dt) : REnd d (setQuiet b d) := by
+  have h := setQuiet_eq b d
+  refine ⟨h.2.2.2.2.2.2.2.2.2.2.2.2.2.2.2.2, fun hr he => ?_⟩
+  unfold PEnd
+  rw [h.2.2.2.2.2.2.2.2.2.2.2.2.1, h.2.1, he]
+  exact ⟨by omega, fun _ => rfl⟩
+
+theorem rstart_setq (now : Int) (b : Bool) (d : Dt) : RStart now d (setQuiet b d) := by
+  have h := setQuiet_eq b d
+  intro hi
+  unfold IStart at hi ⊢
+  rw [h.2.2.1, h.2.2.2.2.2.2.2.1, h.2.2.2.2.2.2.2.2.2.2.2.1]
+  exact hi
 
 end Icinga.C05
